@@ -220,8 +220,51 @@ func c01r4(c *Ctx) {
 			}
 		}
 		if blk == nil || sup == nil {
-			ob.Unknown("the apply step does not fetch (block, supplement) from Store.Block")
-			continue
+			// the walker looks the pair up and hands it to the apply step: the step's parameters are the pair, provided
+			// every caller passes what one Store.Block lookup returned
+			bi, si := -1, -1
+			k := 0
+			if r.applyTip.Type.Params != nil {
+				for _, fld := range r.applyTip.Type.Params.List {
+					for _, nm := range fld.Names {
+						t := f.Info().TypeOf(fld.Type)
+						if ir.IsNamed(t, ir.PkgPath("types"), "Block") {
+							if _, isPtr := t.(*types.Pointer); !isPtr {
+								blk, bi = f.Info().Defs[nm], k
+							}
+						}
+						if ir.IsNamed(t, ir.PkgPath("consensus"), "V1BlockSupplement") {
+							sup, si = f.Info().Defs[nm], k
+						}
+						k++
+					}
+				}
+			}
+			fromStore := bi >= 0 && si >= 0
+			if fromStore {
+				ncalls := 0
+				for _, caller := range r.methodsV {
+					for _, call := range caller.CallsTo(false, r.applyTip.Obj) {
+						ncalls++
+						if bi >= len(call.Expr.Args) || si >= len(call.Expr.Args) {
+							fromStore = false
+							continue
+						}
+						c1, i1 := tupleDef(caller, caller.ObjOf(call.Expr.Args[bi]))
+						c2, i2 := tupleDef(caller, caller.ObjOf(call.Expr.Args[si]))
+						if c1 == nil || c1 != c2 || i1 != 0 || i2 != 1 || caller.Callee(c1) != r.storeBlock {
+							fromStore = false
+						}
+					}
+				}
+				if ncalls == 0 {
+					fromStore = false
+				}
+			}
+			if !fromStore {
+				ob.Unknown("the apply step does not fetch (block, supplement) from Store.Block")
+				continue
+			}
 		}
 		var edges []*cfgx.Edge
 		for _, vc := range f.CallsTo(false, r.validateBlock) {
@@ -410,6 +453,16 @@ func c01r8(c *Ctx) {
 	for _, bc := range f.CallsTo(false, r.storeBlock) {
 		if as, ok := g.NodeContaining(bc.Pos()).AST.(*ast.AssignStmt); ok && len(as.Lhs) == 3 {
 			blk = f.ObjOf(as.Lhs[0])
+		}
+	}
+	// (the walker may look the block up and hand it to the apply step: then the step's block parameter is the block)
+	if blk == nil && r.applyTip.Type.Params != nil {
+		for _, fld := range r.applyTip.Type.Params.List {
+			if ir.IsNamed(f.Info().TypeOf(fld.Type), ir.PkgPath("types"), "Block") {
+				for _, nm := range fld.Names {
+					blk = f.Info().Defs[nm]
+				}
+			}
 		}
 	}
 	for _, apply := range f.CallsTo(false, r.storeApply) {
